@@ -5,6 +5,18 @@ sys.path.insert(0, '/verif/lib')
 import props
 
 LEVEL = {
+ "C06": ("QcCode.tla holds the standard's constants (n, k, q = (n-k)/360, degree profiles for all 21 identifiers, typed from EN 302 307-1) and the construction law; TLC proves on scaled-down parameters that consecutive columns of a group are "
+         "shifts by q, that the parity part is a staircase (hence invertible, linear-time encodable) and that the base-address difference criterion is equivalent to the absence of 4-cycles (Tanner!Girth). The real matrices are bound by "
+         "trace validation, one event per code: TLC checks dimensions, the quasi-cyclic law column by column (all columns of the short codes; all of every code in thorough), the degree profile, the dual diagonal, the 4-cycle criterion on the "
+         "extracted base addresses, a 6-cycle witness for normal rate 1/2 (girth 6), encoder acceptance within a time bound, and the SHA-256 of the canonical alist against pins/dvbs2.json.",
+         "TLC + Json/IOUtils; address tables only comparable with pins from the repaired tree (no offline copy of Annex B/C); syndrome/prefix of encodings and SHA-256 from the harness.",
+         "TLA+ specification of the standard's law and constants + trace validation of the real matrices column by column", "5 C06"),
+ "C07": ("Ccsds.tla holds the Blue Book constants (M table, protograph summand counts per cell, punctured block degree 6, C2 as a 2x16 array of weight-2 511-circulants) with consistency ASSUMEs; MC_Ccsds proves that insert+toggle expansion "
+         "is the GF(2) sum of the permutation matrices and is regular iff no two summands collide (insert-only is a negative configuration). The real matrices are bound by trace validation, one event per code: TLC checks dimensions, cell weights "
+         "row by row, block-column degrees, the M/4-circulant (511-circulant) structure row by row, rank / invertible-tail / (8176,7156) from the rank oracle, encoder acceptance, girth 6 of rate-1/2 k=1024 and of C2 (oracle 4-cycle test + a 6-cycle "
+         "witness verified edge by edge) and SHA-256 against pins/ccsds.json.",
+         "TLC + Json/IOUtils; ranks, 4-cycle test and SHA-256 are harness oracles; theta/phi/circulant tables only comparable with pins from the unchanged tree.",
+         "TLA+ specification of the Blue Book structure + trace validation of the real matrices row by row", "5 C07"),
  "C16": ("MacKayNeal.tla and Peg.tla specify the constructions with the RNG replaced by nondeterministic choice: the column guard (available rows, uniform exchange condition, local-girth test), backtracking, girth retries; PEG's per-edge guard "
          "(unreachable, else maximal distance, then least degree). TLC explores every behaviour of small configurations and checks ResultOK (exact column weight, row bound, girth, row balance) and that every finished column was legal "
          "when inserted. The real code is bound by trace validation: the final matrix of each successful run is replayed as an insertion trace (ColumnLegal / ColumnLegalPeg evaluated by TLC with declarative distances and local girth from "
